@@ -6,6 +6,7 @@ import CogentModel.Proofs.TableOpsLemmas
 import CogentModel.Proofs.TableNamed
 import CogentModel.Proofs.CastStr
 import CogentModel.Proofs.TableArgs
+import CogentModel.Proofs.TableLoad
 /-! # C20 — property theorems
 
 Tables follow the list-of-rows model (`rowsOf` is the abstraction from the column store to the list
@@ -544,4 +545,77 @@ example : C20Args.joinedCall .none .none false "x_" = .ok { name := "cross_join"
 
 end Args
 
+/-! ## the row logic of `load_delimited`, TRANSLATED from the current source of parse/table.py -/
+section Load
+open CogentModel.TableLoad CogentModel.Gen
+
+/-- `load_delimited`'s handling of the records the csv reader yields — `limit` (+1 for the header line), the title
+line (`next(reader)`, StopIteration on an empty file), the reading loop with its `break`, `rows.pop(0)` for the
+header, `rows.pop(-1)` for the legend — as generated from the source text equals the hand model, for ALL record
+lists and ALL arguments (`header`, `with_title`, `with_legend`, `limit` incl. None, 0 and negative values). -/
+theorem load_delimited_translated (recs : List Row) (header withTitle withLegend : Bool) (limit : Option Int) :
+    C20Load.loadDelimitedRows recs header withTitle withLegend limit
+      = loadRowsH recs header withTitle withLegend limit :=
+  gen_loadDelimitedRows_eq recs header withTitle withLegend limit
+
+example : C20Load.loadDelimitedRows [["T".toList], ["a".toList, "b".toList], ["1".toList, "2".toList], ["3".toList, "4".toList]]
+    true true false (some 1) = .ok (some ["a".toList, "b".toList], [["1".toList, "2".toList]], "T".toList, []) := by rfl
+
+/-- the model used by `table_text_roundtrip` (`header=True`, no limit) is the csv reader followed by the translated
+row logic -/
+theorem load_delimited_default_is_translated (delim : Char) (wt wl : Bool) (text : Str) :
+    (loadDelimited delim wt wl text).map (fun r => ((some r.1 : Option Row), r.2))
+      = (csvRead delim text).bind fun recs => C20Load.loadDelimitedRows recs true wt wl none := by
+  simp only [load_delimited_translated]
+  exact loadDelimited_eq_loadRowsH delim wt wl text
+
+/-- `limit`: with a header line and without a legend line the loader returns the header and exactly the FIRST
+`limit` data rows (all of them when there are fewer), for every `limit >= 0`, with and without a title line -/
+theorem load_limit_takes_first_rows (title : Option Row) (hdr : Row) (rows : List Row) (l : Int) (hl : 0 ≤ l) :
+    C20Load.loadDelimitedRows (title.toList ++ hdr :: rows) true title.isSome false (some l)
+      = .ok (some hdr, rows.take l.toNat, (title.getD []).flatten, []) := by
+  rw [load_delimited_translated]
+  have e : (max 1 (l + 1)).toNat = l.toNat + 1 := by omega
+  cases title <;> simp [loadRowsH, keepCount, takeOpt, e]
+
+example : C20Load.loadDelimitedRows [["h".toList], ["1".toList], ["2".toList], ["3".toList]] true false false (some 2)
+    = .ok (some ["h".toList], [["1".toList], ["2".toList]], [], []) := by rfl
+
+/-- `header=False`: nothing is taken off, the header is None -/
+theorem load_without_header (recs : List Row) :
+    C20Load.loadDelimitedRows recs false false false none = .ok (none, recs, [], []) := by
+  rw [load_delimited_translated]; simp [loadRowsH, keepCount, takeOpt]
+
+/-- `Table.write` then `load_delimited(limit=l)`: header, title and the first `l` rows of cell text come back -/
+theorem table_text_roundtrip_limit (d : Dialect) (g : GoodDialect d) (title : Str) (header : Row)
+    (rows : List Row) (l : Int) (hl : 0 ≤ l) (ht : Quotable d title) (hh : ∀ f ∈ header, Quotable d f)
+    (hn : ∀ r ∈ rows, ∀ f ∈ r, Quotable d f) :
+    ((csvRead d.delim (tableWrite d title header rows [])).bind fun recs =>
+        C20Load.loadDelimitedRows recs true (title ≠ []) false (some l))
+      = .ok (some header, rows.take l.toNat, title, []) := by
+  unfold tableWrite
+  rw [csv_roundtrip_general g]
+  · by_cases h1 : title = []
+    · have := load_limit_takes_first_rows none header rows l hl
+      simpa [h1, Except.bind] using this
+    · have := load_limit_takes_first_rows (some [title]) header rows l hl
+      simpa [h1, Except.bind] using this
+  · intro r hr f hf
+    simp only [List.mem_append, List.mem_cons] at hr
+    rcases hr with (hr | rfl | hr) | hr
+    · split at hr
+      · simp at hr
+      · simp at hr; subst hr; simp at hf; subst hf; exact ht
+    · exact hh f hf
+    · exact hn r hr f hf
+    · simp at hr
+
+/-- mirrored, not judged: the loop tests the limit AFTER appending, so `header=False, limit=0` still returns one
+row (and a negative limit with a header returns the header and no rows) -/
+theorem load_limit_zero_counter :
+    loadRowsH [["1".toList], ["2".toList]] false false false (some 0) = .ok (none, [["1".toList]], [], []) ∧
+    loadRowsH [["h".toList], ["2".toList]] true false false (some (-5)) = .ok (some ["h".toList], [], [], []) := by
+  exact ⟨by rfl, by rfl⟩
+
+end Load
 end CogentModel.C20
